@@ -1,13 +1,14 @@
 #!/bin/bash
 # try_mutant_scratch.sh <patch.diff> <check ids...> [-- extra env like VERIF_ONLY_PART=x]
 # Like run_mutant.sh but without touching /repo: scratch copy of /repo/src + SIRC_SRC + own target dir.
+# XS_TARGET selects the target dir, XS_HARNESS a snapshot of /verif/harness (so that sources may be edited meanwhile).
 set -u
 P="$1"; shift
 export CARGO_NET_OFFLINE=true RUST_BACKTRACE=0
 W=/tmp/xs-$$; rm -rf $W; mkdir -p $W
 cp -r /repo/src $W/src; cp /repo/config-example.toml /repo/Cargo.toml $W/
 ( cd $W && patch -s -p1 < "$P" ) || { echo "patch failed"; rm -rf $W; exit 2; }
-( cd /verif/harness && SIRC_SRC=$W/src CARGO_TARGET_DIR=${XS_TARGET:-/tmp/xs-target} cargo build --profile verif --offline 2>$W/build.log ) || { echo "build failed"; tail -5 $W/build.log; rm -rf $W; exit 2; }
+( cd ${XS_HARNESS:-/verif/harness} && SIRC_SRC=$W/src CARGO_TARGET_DIR=${XS_TARGET:-/tmp/xs-target} cargo build --profile verif --offline 2>$W/build.log ) || { echo "build failed"; tail -5 $W/build.log; rm -rf $W; exit 2; }
 for id in "$@"; do
   out=$(cd /verif && SIRC_VERIF_OUT=$W SIRC_EXAMPLE=$W/config-example.toml ${XS_TARGET:-/tmp/xs-target}/verif/sircverif check "$id" --tier quick 2>&1); rc=$?
   pred=$(echo "$out" | grep -m1 "predicate" | sed 's/.*predicate //' | cut -c1-200)
